@@ -159,8 +159,8 @@ func runC07(r *Run, rng *Rng, thorough bool) {
 					doc := jsonOf(&d)
 					type variant struct {
 						class    string
-						cborKey  int64   // key to set (0 = none)
-						val      *Node   // nil = delete
+						cborKey  int64 // key to set (0 = none)
+						val      *Node // nil = delete
 						jsonName string
 						jval     *JTree // nil = delete
 						declared string // "" = none declared; "?" = no verdict
